@@ -936,13 +936,16 @@ func TestVerifC06Combined(t *testing.T) {
 		useBasic := rapid.Bool().Draw(rt, "useBasic")
 		// the Authorization header can carry one credential only; keep conflicts to a small share
 		if !vfOneIn(rt, 10, "allowAuthConflict") {
-			if useBasic && sigMode == "header" {
-				sigMode = "presign"
+			// (a presigned URL does not use the header, but the signer takes any Authorization
+			// header for its own, as AWS does: counted as a conflict too)
+			if useBasic && sigMode != "none" {
+				if rapid.Bool().Draw(rt, "basicOverSig") {
+					sigMode = "none"
+				} else {
+					useBasic = false
+				}
 			}
-			if useBasic && (jwtMode == "header" || jwtMode == "oauth2" || jwtMode == "both") {
-				jwtMode = "cookie"
-			}
-			if sigMode == "header" && (jwtMode == "header" || jwtMode == "oauth2" || jwtMode == "both") {
+			if (useBasic || sigMode != "none") && (jwtMode == "header" || jwtMode == "oauth2" || jwtMode == "both") {
 				jwtMode = "cookie"
 			}
 		} else {
